@@ -52,7 +52,10 @@ def gen_pseq(rng, o):
     for _ in range(rng.randint(2, o.get("max_calls", 7))):
         pidx = rng.randrange(n_pol)
         pol = policies[pidx]
-        call = rc.gen_call(rng, pidx, pol, oo, entries=o.get("entries", ["policy"]))
+        # Policy / AsyncPolicy, or RetryPolicy / AsyncRetryPolicy with the breaker attached to the Policy they wrap
+        call = rc.gen_call(rng, pidx, pol, oo, entries=o.get("entries", ["policy", "policy", "policy", "retrypolicybrk"]))
+        if pol["no_retry"] and call["entry"] == "retrypolicybrk":
+            call["entry"] = "policy"
         if pol["no_retry"]:
             call["cfg"].update(handler_c=False, bs_c=False, sleeper_c=False, capture_tl=False)
             call["env"]["ops"] = call["env"]["ops"][:1]
